@@ -15,7 +15,7 @@ import (
 
 // Msg is one encodable object in plain data.
 type Msg struct {
-	Kind string `json:"kind"` // header | series | points | point | value | timestamp | duration
+	Kind string  `json:"kind"` // header | series | points | point | value | timestamp | duration
 	L    *Layout `json:"layout,omitempty"`
 	From uint32  `json:"from,omitempty"`
 	Step int32   `json:"step,omitempty"`
@@ -31,6 +31,8 @@ type C14Case struct {
 	Trailing []byte `json:"trailing"` // arbitrary bytes after the last message
 	// Cut is a per-mille position inside the first message for the truncation check
 	Cut int `json:"cut"`
+	// Reuse: messages of the same type are decoded into one reused target object
+	Reuse bool `json:"reuse,omitempty"`
 }
 
 type codec interface {
@@ -46,6 +48,9 @@ func (m Msg) build() (codec, func() codec, error) {
 			return nil, nil, err
 		}
 		return h, func() codec { return &wt.Header{} }, nil
+	case "nil-series":
+		// the absent series (what a fetch outside an archive's retention yields): encodes as an empty series
+		return (*wt.TimeSeries)(nil), func() codec { return &wt.TimeSeries{} }, nil
 	case "series":
 		vals := make([]wt.Value, len(m.Bits))
 		for i, b := range m.Bits {
@@ -88,6 +93,11 @@ func equalObj(kind string, a, b codec) string {
 		}
 		if x.Size() != y.Size() || x.ExpectedFileSize() != y.ExpectedFileSize() || x.String() != y.String() {
 			return "derived fields (size / offsets) differ"
+		}
+	case "nil-series":
+		y := b.(*wt.TimeSeries)
+		if y.FromTime() != 0 || y.UntilTime() != 0 || y.Step() != 0 || len(y.Values()) != 0 || len(y.Points()) != 0 {
+			return fmt.Sprintf("the absent series decoded as %d..%d/%d with %d values", y.FromTime(), y.UntilTime(), y.Step(), len(y.Values()))
 		}
 	case "series":
 		x, y := a.(*wt.TimeSeries), b.(*wt.TimeSeries)
@@ -178,8 +188,19 @@ func runC14(c C14Case, ev *Evid) (fs []Finding) {
 	// sequential decode of the concatenation
 	rest := stream
 	consumed := 0
+	typeOf := func(kind string) string {
+		if kind == "nil-series" {
+			return "series"
+		}
+		return kind
+	}
+	used := map[string]codec{} // decode targets already used for this type: decoding must fully overwrite them
 	for i, b := range bs {
 		dec := b.fresh()
+		if prev, ok := used[typeOf(b.m.Kind)]; ok && c.Reuse {
+			dec = prev
+		}
+		used[typeOf(b.m.Kind)] = dec
 		var r []byte
 		var err error
 		if pm := guard(func() { r, err = dec.TakeFrom(rest) }); pm != "" {
@@ -273,6 +294,9 @@ func runC14(c C14Case, ev *Evid) (fs []Finding) {
 		nontrivial = n > 16 || len(c.Trailing) > 0 || len(c.Msgs) > 1
 	}
 	cls := []string{"first=" + first.m.Kind}
+	if c.Reuse {
+		cls = append(cls, "reused-decode-target")
+	}
 	if len(c.Msgs) > 1 {
 		cls = append(cls, "concatenated")
 	}
@@ -359,7 +383,7 @@ func genMsg(t *rapid.T, kinds []string) Msg {
 	return m
 }
 
-var allKinds = []string{"header", "series", "series", "points", "points", "point", "value", "timestamp", "duration"}
+var allKinds = []string{"header", "series", "series", "series", "nil-series", "points", "points", "point", "value", "timestamp", "duration"}
 
 func genC14(t *rapid.T) C14Case {
 	var c C14Case
@@ -374,13 +398,23 @@ func genC14(t *rapid.T) C14Case {
 		c.Trailing = rapid.SliceOfN(rapid.Byte(), 1, 40).Draw(t, "trailing")
 	}
 	c.Cut = rapid.IntRange(0, 999).Draw(t, "cut")
+	c.Reuse = rapid.Bool().Draw(t, "reuse")
+	if c.Reuse && rapid.Bool().Draw(t, "sameType") {
+		// several messages of one type so that the reused target really is dirty
+		k := rapid.SampledFrom([][]string{{"series", "nil-series", "series"}, {"points"}, {"header"}, {"point"}}).Draw(t, "reuseKinds")
+		n := rapid.IntRange(2, 4).Draw(t, "reuseMsgs")
+		c.Msgs = nil
+		for i := 0; i < n; i++ {
+			c.Msgs = append(c.Msgs, genMsg(t, k))
+		}
+	}
 	return c
 }
 
 func TestC14(t *testing.T) {
 	RunProperty(t, Property[C14Case]{
-		ID: "C14",
-		Rule: "rapid-generated sequences of 1-4 encodable objects (valid headers of 1-4 archives, series of 0-2000 values with any step >= 1 whose span fits 31 bits, point lists of 0-2000 points, points, values of any float64 bit pattern incl. NaN payloads / signalling NaNs / infinities / -0, any uint32 time, any int32 duration) appended to a generated destination prefix and followed by generated trailing bytes; checked: field-wise + bit-wise equality after decode, re-encoding equality, exact consumption, remainder aliasing the input tail, sequential decoding of the concatenation, and for ~12 proper prefixes of the first message the want-larger-buffer protocol (size in (given, complete], retry terminates within 3 steps). Non-trivial: first message longer than 16 bytes, or trailing bytes, or a concatenation. Distinct = hash of the case.",
+		ID:          "C14",
+		Rule:        "rapid-generated sequences of 1-4 encodable objects (valid headers of 1-4 archives, series of 0-2000 values with any step >= 1 whose span fits 31 bits, point lists of 0-2000 points, points, values of any float64 bit pattern incl. NaN payloads / signalling NaNs / infinities / -0, any uint32 time, any int32 duration) appended to a generated destination prefix and followed by generated trailing bytes; checked: field-wise + bit-wise equality after decode, re-encoding equality, exact consumption, remainder aliasing the input tail, sequential decoding of the concatenation, and for ~12 proper prefixes of the first message the want-larger-buffer protocol (size in (given, complete], retry terminates within 3 steps). Non-trivial: first message longer than 16 bytes, or trailing bytes, or a concatenation. Distinct = hash of the case.",
 		Assumptions: []string{"series satisfy until = from + n*step with until <= 2^32-1 and until-from <= 2^31-1 (what fetch and the constructors produce)"},
 		Gen:         genC14,
 		Run:         runC14,
